@@ -304,7 +304,16 @@ def eff3(ctx, pid):
                 else:
                     ctx.bad(c, f.loc(n), "db comprehension key `%s` is not keccak of value `%s`" % (ast.unparse(k), ast.unparse(v)))
             elif isinstance(src, ast.Dict):
-                ctx.unsure(c, f.loc(n), "non-empty dict display as verifier db")
+                badkv = None
+                for k_, v_ in zip(src.keys, src.values):
+                    okkv = (k_ is not None and isinstance(k_, ast.Call) and len(k_.args) == 1 and ast.dump(k_.args[0]) == ast.dump(v_)
+                            and any(t.kind == "ext" and "ext:" + t.name in KECCAK for t in ctx.R.resolve_call(k_, f, count=False)))
+                    if not okkv:
+                        badkv = (k_, v_)
+                if badkv:
+                    ctx.bad(c, f.loc(n), "the verifier db is pre-filled with an entry whose key `%s` is not keccak of its value" % (ast.unparse(badkv[0]) if badkv[0] is not None else "**"))
+                else:
+                    ctx.ok(c, f.loc(n), "every entry of the db display is keccak(value) -> value")
 
 
 # ---------------------------------------------------------------------------
